@@ -204,7 +204,7 @@ def run(ctx):
         r = ctx.rng.fork('th%d' % i)
         k = r.below(7) + 2
         jobs = [[r.below(120) + 5, r.choice([0, 0, 1, 3, 7]), not r.chance(1, 4)] for _ in range(k)]
-        tcases.append({'jobs': jobs, 'interval': r.choice([1e-6, 1e-5, 1e-4, 5e-3]), 'decorate': r.chance(1, 3)})
+        tcases.append({'jobs': jobs, 'interval': r.choice([1e-6, 1e-5, 1e-4, 5e-3]), 'decorate': r.chance(1, 3), 'warm': r.fork('warm').chance(1, 2)})
     # asyncio: tasks run in copies of the context; a worker thread may run with the caller's context (asyncio.to_thread)
     for sizes, tt in (([6, 1, 3], 0), ([2, 2], 4), ([1, 5, 2, 4], 3), ([3], 2)):
         tcases.append({'aio': sizes, 'to_thread': tt, 'jobs': [[s, 0, True] for s in sizes] + [[1, 0, True]]})
